@@ -579,3 +579,29 @@ for _p, _e in (("C03", "R6-rebase-in-bounds"), ("C05", "V2")):
     B(_p, "per-decoder lists merged instead of sorted (seeds s79 / s81)", MD, SORT_OLD2,
       "        results = heapq.merge(\n            *([hit for hit in search(node.value) if hit.value] for search in self.decoders),\n            key=lambda t: (t.start, -t.end),\n        )\n", _e,
       also=[dict(file=MD, old="from __future__ import annotations\n", new="from __future__ import annotations\n\nimport heapq\n")])
+
+# ------------------------------------------------------------------ E13 normaliser: extracted private helpers, hoisted temporaries, saved root (round 9)
+RET_OLD = "        return stack[0] if stack else node\n"
+SELF_OLD = "            if hit.start == 0 and hit.value == node.value and hit.type == node.type:\n"
+SELF_HELPER = "\n\ndef _is_self_match(hit: Node, context: Node) -> bool:\n    return hit.start == 0 and hit.value == context.value and hit.type == context.type\n"
+SELF_HELPER_BAD = "\n\ndef _is_self_match(hit: Node, context: Node) -> bool:\n    return hit.start == 0 and hit.value == context.value\n"
+KEY_OLD = "            key=lambda t: (t.start, -t.end),\n"
+KEY_HELPER = "\n\ndef _span_order(hit: Node) -> tuple[int, int]:\n    return hit.start, -hit.end\n"
+KEY_HELPER_BAD = "\n\ndef _span_order(hit: Node) -> tuple[int, int]:\n    return hit.start, hit.end\n"
+DEC_OLD = "            if hit.value.lower() != hit.original.lower() or hit.children:\n"
+DEC_HELPER = "\n\ndef _is_decoded(hit: Node) -> bool:\n    changed = hit.value.lower() != hit.original.lower()\n    return changed or bool(hit.children)\n"
+for _p in ("C01", "C02", "C03", "C04", "C05", "C06", "C07", "C08", "C09"):
+    N(_p, "self-match test extracted into a private helper", MD, SELF_OLD, "            if _is_self_match(hit, node):\n", also=[dict(file=MD, old=RET_OLD, new=RET_OLD + SELF_HELPER)])
+    N(_p, "sort key as a named private function", MD, KEY_OLD, "            key=_span_order,\n", also=[dict(file=MD, old=RET_OLD, new=RET_OLD + KEY_HELPER)])
+    N(_p, "decoded test extracted into a two-statement private helper", MD, DEC_OLD, "            if _is_decoded(hit):\n", also=[dict(file=MD, old=RET_OLD, new=RET_OLD + DEC_HELPER)])
+    N(_p, "remaining depth hoisted into a temporary", MD, "        if node.children:\n            # Don't rescan nodes with existing children\n",
+      "        remaining = depth_limit - 1\n        if node.children:\n            # Don't rescan nodes with existing children\n",
+      also=[dict(file=MD, old="self.scan_node(child, depth_limit - 1)", new="self.scan_node(child, remaining)"), dict(file=MD, old="self.scan_node(hit, depth_limit - 1)", new="self.scan_node(hit, remaining)")])
+    N(_p, "root saved before the loop and returned", MD, "        stack: list[Node] = []\n", "        root = node\n        stack: list[Node] = []\n", also=[dict(file=MD, old=RET_OLD, new="        return root\n")])
+B("C06", "extracted self-match helper forgets the type comparison", MD, SELF_OLD, "            if _is_self_match(hit, node):\n", "V6", also=[dict(file=MD, old=RET_OLD, new=RET_OLD + SELF_HELPER_BAD)])
+B("C05", "named sort key orders equal starts shortest first", MD, KEY_OLD, "            key=_span_order,\n", "V2", also=[dict(file=MD, old=RET_OLD, new=RET_OLD + KEY_HELPER_BAD)])
+B("C07", "hoisted remaining depth does not decrement", MD, "        if node.children:\n            # Don't rescan nodes with existing children\n",
+  "        remaining = depth_limit\n        if node.children:\n            # Don't rescan nodes with existing children\n", "R2-decrement",
+  also=[dict(file=MD, old="self.scan_node(child, depth_limit - 1)", new="self.scan_node(child, remaining)"), dict(file=MD, old="self.scan_node(hit, depth_limit - 1)", new="self.scan_node(hit, remaining)")])
+B("C03", "saved 'root' is taken after the first context push", MD, "                node = hit\n", "                node = hit\n                root = node\n", "R2-return-root",
+  also=[dict(file=MD, old=RET_OLD, new="        return root\n"), dict(file=MD, old="        stack: list[Node] = []\n", new="        root = node\n        stack: list[Node] = []\n")])
